@@ -133,7 +133,7 @@ fn op_coq(op: &COp) -> String {
         COp::Insert(k, v) => format!("OInsert {} {}", k, z(*v)),
         COp::TryInsert(k, v) => format!("OTryInsert {} {}", k, z(*v)),
         COp::Remove(k) => format!("ORemove {}", k),
-        COp::Compute(k, f) => format!("OCompute {} (remap_tbl {} {})", k, f, k),
+        COp::Compute(k, f) => format!("OCompute {} (cremap_tbl {} {})", k, f, k),
         other => panic!("binsim: operation {:?} is outside the model", other),
     }
 }
